@@ -415,6 +415,10 @@ func parseProposalAnswer(str string, props []*Proposal, l *log.Logger) error {
 func (s *Session) writeCompressed(rw io.ReadWriter, p *Proposal) (err error) {
 	s.log.Printf("Transmitting [%s] [offset %d]", p.title, p.offset)
 
+	if p.offset < 0 || p.offset > len(p.compressedData) {
+		return fmt.Errorf("Remote requested offset %d which is outside the message", p.offset)
+	}
+
 	if p.code == GzipProposal {
 		s.log.Println("GZIP_EXPERIMENT:", "Transmitting gzip compressed message.")
 	}
